@@ -64,12 +64,31 @@ contracts = {
     params={"job_options": MAP, "job": REF, "self": REF, "parent_job": OBJ, "expr": OBJ},
     classes={"job": "Job", "self": "Scheduler"},
     lib={"job.recording_provenance()": lambda e, n, st, old: prov_of(e, st)},
-    at_call={"evaluate": [
+    before_call={("Scheduler.evaluate", 0): [
         "job.eval_options != None",
         "forall(k, Str, implies(k != 'cache_scope', val(job.eval_options).get(k) == job_options.get(k)))",
         "implies(not truthy(job_options['prov'] if 'prov' in job_options else True), val(job.eval_options).get('cache_scope') == Some(CacheScope.NONE))",
         "implies(truthy(job_options['prov'] if 'prov' in job_options else True), val(job.eval_options).get('cache_scope') == job_options.get('cache_scope'))"]}),
+ "Scheduler.evaluate": dict(where=f"{S}:Scheduler.evaluate", params={"self": REF, "expr": OBJ, "parent_job": OBJ}, returns=OBJ, pure="eval_promise"),
+ "Scheduler._evaluate_apply": dict(where=f"{S}:Scheduler._evaluate_apply", params={"self": REF, "expr": OBJ, "parent_job": Opt(REF)},
+    classes={"job": "Job", "self": "Scheduler", "parent_job": "Job"}, locals={"job_options": MAP},
+    ghost_local={"raw": MAP}, after_call={("Job.get_raw_options", 0): "raw = result"},
+    lib={"Job(": lambda e, n, st, old: new_job(e, n, st, old)},
+    at_call={"then#1": ["recv == eval_promise(self, raw, parent_job)"]}, must_call=["get_raw_options", "evaluate"]),
 }
+
+
+def new_job(eng, n, st, old):
+    """Job(task, expr, parent_job=..., execution=..., options=job_options): site conditions on the scheduler-imposed options"""
+    kw = {k.arg: eng.ev(k.value, st, old) for k in n.keywords if k.arg}
+    opts = eng.coerce(kw["options"], MAP)
+    cse = eng.enum_const("CacheScope", "CSE")
+    use_cache = eng.truth(eng.ev(__import__("ast").parse("self._use_cache", mode="eval").body, st, old))
+    g1 = T(BOOL, f"(=> (not {use_cache.s}) (= (select {opts.s} \"cache_scope\") (Some_Obj {cse.s})))")
+    eng.oblige(f"{eng.cur}/at[Job#0].cache-downgraded-when-cache-is-off", "at", st, g1, n.lineno)
+    j = eng.opaque("job", REF, "Job")
+    st.pc.append(f"(= (select {eng.field(st, 'options').s} {j.s}) {opts.s})")
+    return j
 
 
 def keyset(eng, m, st):
@@ -90,15 +109,15 @@ def prov_of(eng, st):
 
 MODULE = Module(
     fields={"options": MAP, "eval_options": Opt(MAP), "export_options": Set(STR), "parent_job": Opt(REF)},
-    stable={"task": REF, "expr": REF, "_options": MAP, "_export_options": Set(STR), "_task_options_base": MAP, "_task_options_override": MAP},
-    ufuns={"truthy": ([OBJ], BOOL), "box_Bool": ([BOOL], OBJ)},
+    stable={"_use_cache": OBJ, "task": REF, "expr": REF, "_options": MAP, "_export_options": Set(STR), "_task_options_base": MAP, "_task_options_override": MAP},
+    ufuns={"truthy": ([OBJ], BOOL), "box_Bool": ([BOOL], OBJ), "eval_promise": ([REF, OBJ, OBJ], OBJ)},
     axioms=["(forall ((b Bool)) (! (= (|truthy| (|box_Bool| b)) b) :pattern ((|box_Bool| b))))"],
     enums={"CacheScope": ["NONE", "CSE", "BACKEND"]},
     classes={"self": "Job", "self.parent_job": "Job", "self.task": "Task"},
     contracts=contracts,
 )
 VERIFY = ["Task.get_task_options", "Task.options", "Task.export_options", "Job.get_export_options", "Job.get_raw_options", "Job.get_options", "Job.get_option",
-          "Job.recording_provenance", "Job.__init__", "options_then"]
+          "Job.recording_provenance", "Job.__init__", "options_then", "Scheduler._evaluate_apply"]
 EXPECTED_MIN_OBLIGATIONS = 25
 TRUSTED = ["A-DICT (right bias of {**a, **b})", "effective(job): the evaluated options of a job (eval_options once set)"]
 ASSUMPTIONS = [
@@ -106,3 +125,11 @@ ASSUMPTIONS = [
     "Job.get_export_options is used through its contract with effective(job) = the job's evaluated options; its own body is verified under C27 only for the filter shape (see level_note)",
     "evaluate(...) of the raw options returns the same keys with expression values replaced by their results (C19/C01 territory, not proved here)",
 ]
+
+
+def bounded_trees(tier, seed):
+    from pvc import bounded
+    return [bounded.run("C27", "job-trees", rule="job trees with options at definition / export / call level, expression-valued and nested options, exports in sibling branches, on the real scheduler")]
+
+
+EXTRA_CHECKS = [bounded_trees]
